@@ -3,7 +3,7 @@
 //! reference bus (flat shadow memories + I/O register model); the fetch view is
 //! compared with the data view over ROM, work RAM and high RAM.
 
-use crate::mem::{get_executable_memory_slice, memory_read_byte, memory_write_byte, MemoryAreas};
+use crate::mem::{get_executable_memory_slice, memory_push_word, memory_read_byte, memory_read_word, memory_write_byte, memory_write_word, MemoryAreas};
 use crate::rt::{hash_words, Ctx, Rng};
 use crate::support;
 use crate::timing::ClockCycles;
@@ -137,6 +137,9 @@ struct Mon<'a> {
   rom_bank_now: usize,
   ram_bank_now: usize,
   elapses: u64,
+  word_stores: u64,
+  store_already_done: bool,
+  defer_read_back: bool,
 }
 
 impl<'a> Mon<'a> {
@@ -359,11 +362,14 @@ impl<'a> Mon<'a> {
     self.evaluations += 1;
     let reg = region(a);
     self.writes_by_region[reg as usize] += 1;
-    if self.identify_banks().is_err() {
+    // (for the bytes of a 16-bit store the banks were identified before the store was made)
+    if !self.store_already_done && self.identify_banks().is_err() {
       return;
     }
     let mp = self.mp();
-    memory_write_byte(mp, a, v);
+    if !self.store_already_done {
+      memory_write_byte(mp, a, v);
+    }
     match reg {
       Region::Rom0 | Region::RomN | Region::Echo | Region::Unused => {}
       Region::Vram => self.r.vram[a as usize & 0x1fff] = v,
@@ -391,9 +397,45 @@ impl<'a> Mon<'a> {
         _ => {}
       }
     }
+    if self.defer_read_back {
+      return;
+    }
     let after = format!("write {:04X}={:02X}", a, v);
     self.sweep(&after, sweep_step);
     self.fetch_view(&after, sweep_step.max(1));
+  }
+
+  /// A 16-bit store (as LD (nn),SP does: low byte first; or as a push does: high
+  /// byte to a+1 first). It must be indistinguishable from the two byte stores in
+  /// that order: the reference is updated byte by byte, the read-back follows.
+  fn write_word(&mut self, a: u16, v: u16, push: bool, sweep_step: u32) {
+    if self.identify_banks().is_err() {
+      return;
+    }
+    let mp = self.mp();
+    let (lo, hi) = (v as u8, (v >> 8) as u8);
+    if push {
+      memory_push_word(mp, a, v);
+    } else {
+      memory_write_word(mp, a, v);
+    }
+    self.word_stores += 1;
+    let order = if push { [(a.wrapping_add(1), hi), (a, lo)] } else { [(a, lo), (a.wrapping_add(1), hi)] };
+    self.store_already_done = true;
+    self.defer_read_back = true;
+    self.write(order[0].0, order[0].1, sweep_step);
+    self.defer_read_back = false;
+    self.write(order[1].0, order[1].1, sweep_step);
+    self.store_already_done = false;
+    // and the 16-bit load sees what two byte loads see
+    let w = memory_read_word(mp, a);
+    let b = memory_read_byte(mp, a) as u16 | ((memory_read_byte(mp, a.wrapping_add(1)) as u16) << 8);
+    if w != b && !(0xff00..0xff80).contains(&a) && !(0xff00..0xff80).contains(&a.wrapping_add(1)) {
+      self.ctx.violation(
+        &format!("C10:{}:word-read!=two-byte-reads", self.cfg_name),
+        &format!("16-bit read at {:04X} gives {:04X}, the two byte reads give {:04X}", a, w, b),
+      );
+    }
   }
 }
 
@@ -469,6 +511,7 @@ pub fn run(ctx: &mut Ctx) {
   let mut totals = (0u64, 0u64, 0u64);
   let mut by_region = [0u64; 11];
   let mut elapses = 0u64;
+  let mut word_stores = 0u64;
   for (ci, &(name, ct, rc, rac)) in configs.iter().enumerate() {
     // work units: chunks of the target-address space
     let chunks = 64u32;
@@ -481,7 +524,7 @@ pub fn run(ctx: &mut Ctx) {
       ctx.intent(&[u, ci as u64, chunk as u64]);
       let mut rng = Rng::from(&[seed, 10, ci as u64, chunk as u64]);
       let (mem, r) = build(ct, rc, rac, &mut rng);
-      let mut m = Mon { ctx, mem, r, cfg_name: name, evaluations: 0, bytes_compared: 0, fetch_compared: 0, writes_by_region: [0; 11], rom_bank_now: 1, ram_bank_now: 0, elapses: 0 };
+      let mut m = Mon { ctx, mem, r, cfg_name: name, evaluations: 0, bytes_compared: 0, fetch_compared: 0, writes_by_region: [0; 11], rom_bank_now: 1, ram_bank_now: 0, elapses: 0, word_stores: 0, store_already_done: false, defer_read_back: false };
       // initial read-back (learns the constants of unmapped cells)
       m.sweep("power-on", 1);
       // a random history first: bank registers, I/O registers, RAM
@@ -544,6 +587,10 @@ pub fn run(ctx: &mut Ctx) {
         m.write(t, v1, if thorough { 1 } else { 1 });
         let v2 = !v1;
         m.write(t, v2, if thorough { 1 } else { 3 });
+        // every fifth target also takes a 16-bit store (LD (nn),SP order or push order)
+        if rng.chance(1, 5) {
+          m.write_word(t, rng.u16(), rng.chance(1, 2), 3);
+        }
       }
       if base == 0xfc00 {
         // device registers written at many different device phases
@@ -565,6 +612,7 @@ pub fn run(ctx: &mut Ctx) {
       totals.1 += m.bytes_compared;
       totals.2 += m.fetch_compared;
       elapses += m.elapses;
+      word_stores += m.word_stores;
       for i in 0..11 {
         by_region[i] += m.writes_by_region[i];
       }
@@ -582,6 +630,7 @@ pub fn run(ctx: &mut Ctx) {
   ctx.count("bytes-read-back-and-compared", totals.1);
   ctx.count("fetch-view-comparisons", totals.2);
   ctx.count("elapses-followed-by-full-read-back", elapses);
+  ctx.count("16-bit-stores-mirrored-as-two-byte-stores", word_stores);
   let names = ["rom0", "romN", "vram", "cartram", "wram", "echo", "oam", "unused", "io", "hram", "ie"];
   for i in 0..11 {
     ctx.count(&format!("writes-to:{}", names[i]), by_region[i]);
